@@ -18,11 +18,13 @@ def plan(tier):
     n = 400 if tier == 'quick' else 6000
     return dict(n_cases=n, shards=16, min_nontrivial=n // 3,
                 min_tags={'path:analytic': n // 4, 'path:state': n // 6, 'clause:uniform_state': n // 30,
-                          'clause:per_point_table': n // 40, 'clause:varying_table': n // 40, 'model:kpanel': n // 30},
+                          'clause:per_point_table': n // 40, 'clause:varying_table': n // 40, 'model:kpanel': n // 30,
+                          'obj:assembly': n // 12, 'state:tiny': n // 24},
                 watchdog_s=1800 if tier == 'quick' else 10000,
                 rule='panels as in C02; analytic path: random real (Nxx,Nyy,Nxy) of all signs incl. pure shear/tension, sub-intervals, '
                      'placement; state path (plate, cpanel): random Ritz states, NLgeom on/off, Gauss orders 2..%d, uniform 6x6 vs '
-                     'per-point (nx,ny,6,6) table, uniform-membrane states; non-trivial = Nxy != 0 or mixed-sign loads or state-based; '
+                     'per-point (nx,ny,6,6) table, uniform-membrane states; every 8th case an assembly of 2-4 panels through '
+                     'PanelAssembly.calc_kG0(c) with per-panel state magnitudes 1e-22..1 of the thickness scale; non-trivial = Nxy != 0 or mixed-sign loads or state-based; '
                      'distinct = hash of panel + loads/state' % (16 if tier == 'quick' else 64),
                 assumptions=['entry-wise tolerance 1e-10 (analytic) / 1e-9 (state-based) of the absolute-value scale',
                              'state-based oracle evaluates N at numpy leggauss points of the same order the call requested'])
@@ -37,7 +39,96 @@ def slope_basis(p, d, xs, ys):
     return U[3:5]
 
 
+def state_oracle(p, F, SF, cp, nx, ny, NLgeom, spt=None):
+    """Hessian of the pre-stress work with N = A eps + B kappa of the state `cp` (panel's own amplitudes) at the numpy Gauss
+    points of the requested order; second return value: the matrix of absolute-value sums (round-off scale)"""
+    xs, ys, w = energy.gauss_grid(p, nx, ny)
+    st = p.strain(cp, xs=xs, ys=ys, NLterms=False)
+    E = np.array([st[k].ravel() for k in energy.STRAIN_KEYS])      # [6, npts]
+    if NLgeom:
+        uvw = p.uvw(cp, xs=xs, ys=ys)
+        wx = -np.asarray(uvw[3]).ravel(); wy = -np.asarray(uvw[4]).ravel()
+        E[0] += 0.5 * wx * wx
+        E[1] += 0.5 * wy * wy
+        E[2] += wx * wy
+    Nres = F[:3, :] @ E            # [3, npts]
+    Sres = SF[:3, :] @ np.abs(E)
+    if spt is not None:
+        Nres = Nres * spt.ravel()[None, :]     # gauss_grid orders the points as [ix*ny + iy], like Fnxny[ptx, pty]
+        Sres = Sres * spt.ravel()[None, :]      # SF: absolute-value scale of F (B of a symmetric stack is cancellation noise)
+    Npts = np.zeros((xs.size, 2, 2)); Spts = np.zeros((xs.size, 2, 2))
+    Npts[:, 0, 0] = Nres[0]; Npts[:, 1, 1] = Nres[1]; Npts[:, 0, 1] = Npts[:, 1, 0] = Nres[2]
+    Spts[:, 0, 0] = Sres[0]; Spts[:, 1, 1] = Sres[1]; Spts[:, 0, 1] = Spts[:, 1, 0] = Sres[2]
+    G = energy.disp_basis(p, xs, ys)[3:5]
+    Ko, _ = energy.quad_form(G, Npts, w)
+    _, S = energy.quad_form(G, Spts, w)
+    return Ko, S
+
+
+def case_assembly(rng, tier):
+    """PanelAssembly.calc_kG0(c): every panel's block is the state-based matrix of THAT panel's part of the state, whatever its
+    magnitude (SI states of unit loads are 1e-9 and smaller; one panel of an assembly may be almost unloaded)"""
+    ad = gen.assembly_desc(rng, npan=int(rng.integers(2, 5)), mmax=4 if tier == 'quick' else 6)
+    c = Case({'obj': 'assembly', 'assembly': ad})
+    c.tag('path:state', 'obj:assembly')
+    c.nontrivial = True
+    try:
+        ass, ps, conn = gen.build_assembly(ad)
+        size = ass.get_size()
+        ass.calc_k0(silent=True)
+    except Exception as e:
+        return c.reject('%s building assembly: %s' % (type(e).__name__, str(e)[:100]))
+    cfull = np.zeros(size)
+    scales = []
+    for p, d in zip(ps, ad['panels']):
+        t = sum(d['lam']['plyts'])
+        sc = float(10 ** rng.uniform(-12, 0)) if rng.random() < 0.6 else 1.0
+        if rng.random() < 0.1:
+            sc = 0.0
+        scales.append(sc)
+        cp = rng.normal(size=p.col_end - p.col_start)
+        cp[2::3] *= t * float(rng.uniform(0.1, 3))
+        cp[0::3] *= t * 0.05
+        cp[1::3] *= t * 0.05
+        cfull[p.col_start:p.col_end] = cp * sc
+    if rng.random() < 0.3:
+        g = float(10 ** rng.uniform(-10, -3))
+        cfull *= g
+        scales = [s_ * g for s_ in scales]
+    c.desc['state_scales'] = scales
+    c.tag('state:tiny' if any(0 < s_ < 1e-6 for s_ in scales) else 'state:ordinary')
+    cbefore = cfull.copy()
+    try:
+        KG = ass.calc_kG0(c=cfull, silent=True)
+    except Exception as e:
+        return c.reject('%s in PanelAssembly.calc_kG0(c): %s' % (type(e).__name__, str(e)[:100]))
+    c.hit('calc_kG0(c)')
+    c.hit('assembly.calc_kG0(c)')
+    c.expect('state vector not modified', np.array_equal(cfull, cbefore))
+    KG = np.asarray(KG.toarray())
+    c.expect('exactly symmetric', np.array_equal(KG, KG.T))
+    mask = np.zeros((size, size), bool)
+    for p, d in zip(ps, ad['panels']):
+        lam = d['lam']
+        F, SF = clt.ABD6(lam['stack'], lam['plyts'], lam['laminaprops'], lam['offset'], force_ortho=bool(lam.get('force_ortho')))
+        sl = slice(p.col_start, p.col_end)
+        mask[sl, sl] = True
+        blk = KG[sl, sl]
+        Ko, S = state_oracle(p, F, SF, cfull[sl], p.nx, p.ny, False)
+        ratio, ij = entrywise_excess(blk, Ko, S, 1e-9)
+        c.judge('assembly: each panel block of kG(c) uses N = A eps + B kappa of that panel\'s part of the state', ratio * 1e-9, 1e-9,
+                data={'entry': ij, 'code': blk[ij], 'oracle': Ko[ij], 'scale': S[ij], 'panel': ad['panels'].index(d)})
+    c.expect('assembly: kG(c) is zero outside the panels\' own blocks', not KG[~mask].any())
+    # linear in the state (no quadratic slope terms requested): halving the state halves the matrix, whatever its magnitude
+    K2 = np.asarray(ass.calc_kG0(c=0.5 * cfull, silent=True).toarray())
+    den = np.abs(KG) + 1e-9 * np.abs(KG).max() + 1e-300
+    c.judge('assembly: kG(c/2) = kG(c)/2', float((np.abs(K2 - 0.5 * KG) / den).max()), 1e-9)
+    return c
+
+
 def run_case(rng, tier, idx):
+    if idx % 8 == 5:
+        return case_assembly(rng, tier)
     state_path = rng.random() < 0.4
     if state_path:
         model = str(rng.choice(['plate', 'cpanel']))
@@ -204,27 +295,8 @@ def run_case(rng, tier, idx):
     uv = np.ones(size_p, bool); uv[2::3] = False
     c.expect('touches only out-of-plane amplitudes', not blk[uv, :].any() and not blk[:, uv].any())
     # oracle: N(p) = A eps + B kappa of the state at numpy Gauss points of the requested order
-    xs, ys, w = energy.gauss_grid(p, nx, ny)
     cp = cfull[row0:row0 + size_p]
-    st = p.strain(cp, xs=xs, ys=ys, NLterms=False)
-    E = np.array([st[k].ravel() for k in energy.STRAIN_KEYS])      # [6, npts]
-    if NLgeom:
-        uvw = p.uvw(cp, xs=xs, ys=ys)
-        wx = -np.asarray(uvw[3]).ravel(); wy = -np.asarray(uvw[4]).ravel()
-        E[0] += 0.5 * wx * wx
-        E[1] += 0.5 * wy * wy
-        E[2] += wx * wy
-    Nres = F[:3, :] @ E            # [3, npts]
-    Sres = SF[:3, :] @ np.abs(E)
-    if spt is not None:
-        Nres = Nres * spt.ravel()[None, :]     # gauss_grid orders the points as [ix*ny + iy], like Fnxny[ptx, pty]
-        Sres = Sres * spt.ravel()[None, :]      # SF: absolute-value scale of F (B of a symmetric stack is cancellation noise)
-    Npts = np.zeros((xs.size, 2, 2)); Spts = np.zeros((xs.size, 2, 2))
-    Npts[:, 0, 0] = Nres[0]; Npts[:, 1, 1] = Nres[1]; Npts[:, 0, 1] = Npts[:, 1, 0] = Nres[2]
-    Spts[:, 0, 0] = Sres[0]; Spts[:, 1, 1] = Sres[1]; Spts[:, 0, 1] = Spts[:, 1, 0] = Sres[2]
-    G = energy.disp_basis(p, xs, ys)[3:5]
-    Ko, _ = energy.quad_form(G, Npts, w)
-    _, S = energy.quad_form(G, Spts, w)
+    Ko, S = state_oracle(p, F, SF, cp, nx, ny, NLgeom, spt)
     ratio, ij = entrywise_excess(blk, Ko, S, 1e-9)
     c.judge('state-based kG uses N = A eps + B kappa of the state at every integration point', ratio * 1e-9, 1e-9,
             data={'entry': ij, 'code': blk[ij], 'oracle': Ko[ij], 'scale': S[ij]})
